@@ -167,7 +167,7 @@ def judge(ctx, groups):
 
 def run(ctx):
     rng = random.Random(ctx.seed)
-    ctx.add_tlc(vlib.tlc("MC_LmControl", workers=2, timeout=300, deque=False), e1=True)
+    vlib.e1(ctx, "MC_LmControl", "LmControl", ["Start", "SearchPass", "MainTest", "MainPass", "SolveFail"], workers=2, timeout=300)
     lin = linear_cases(ctx, rng)
     lm = lm_cases(ctx, rng, 500 if ctx.tier == "quick" else 5000)
     judge(ctx, [lin, lm])
